@@ -2621,9 +2621,10 @@ public:
 						std::cout << "fraction bits     : " << to_binary(rawFraction, ieee754_parameter<Real>::nbits, true) << '\n';
 						std::cout << "lsb mask bits     : " << to_binary(mask, ieee754_parameter<Real>::nbits, true) << '\n';
 #endif
-						mask = (1ull << (rightShift + adjustment)); // bit mask for the lsb bit
+						const int lsbShift = rightShift + adjustment; // 64 for a long double just below the smallest subnormal
+						mask = (lsbShift < 64 ? (1ull << lsbShift) : 0ull); // bit mask for the lsb bit
 						bool lsb = (mask & rawFraction);
-						mask >>= 1;
+						mask = (lsbShift < 64 ? (mask >> 1) : (1ull << 63));
 						bool guard = (mask & rawFraction);
 						mask >>= 1;
 						bool round = (mask & rawFraction);
@@ -2642,7 +2643,7 @@ public:
 						std::cout << "sticky mask bits  : " << to_binary(mask, ieee754_parameter<Real>::nbits, true) << '\n';
 #endif
 						bool sticky = (mask & rawFraction);
-						rawFraction >>= (static_cast<int64_t>(rightShift) + static_cast<int64_t>(adjustment));
+						rawFraction = (lsbShift < 64 ? (rawFraction >> lsbShift) : 0ull);
 
 						// execute rounding operation
 						if (guard) {
